@@ -54,8 +54,8 @@ Section CacheProofs.
   Notation construct := (construct G FP grammar_of imported pg_of create_table).
   Notation step := (step G FP grammar_of imported pg_of create_table).
   Notation spec_step := (spec_step G FP grammar_of pg_of create_table).
-  Notation run := (run G FP grammar_of imported pg_of create_table).
-  Notation spec_run := (spec_run G FP grammar_of pg_of create_table).
+  Notation run_hist := (run_hist G FP grammar_of imported pg_of create_table).
+  Notation spec_hist := (spec_hist G FP grammar_of pg_of create_table).
   Notation disciplined := (disciplined FP).
 
   (* ---- unconditional: absent or older cache ------------------------------ *)
@@ -226,7 +226,7 @@ Section CacheProofs.
 
   Lemma run_sim : forall h fs fs' t,
       inv fs t -> disciplined fp t h -> fs_files fs = fs_files fs' ->
-      run fs h = spec_run fs' h.
+      run_hist fs h = spec_hist fs' h.
   Proof.
     induction h as [|[now o] r IH]; intros fs fs' t Hinv Hd Hfiles.
     - reflexivity.
@@ -241,7 +241,7 @@ Section CacheProofs.
   Lemma cache_transparent : forall files t h,
       (forall f mv, In (f, mv) files -> fst mv <= t) ->
       disciplined fp t h ->
-      run (mkFS files None) h = spec_run (mkFS files None) h.
+      run_hist (mkFS files None) h = spec_hist (mkFS files None) h.
   Proof.
     intros files t h Hf Hd. eapply run_sim; eauto.
     split; [exact Hf | exact I].
@@ -252,7 +252,7 @@ End CacheProofs.
 (* E: E '+' E | E '*' E | 'n';  names: '+'=1 '*'=2 'n'=3 EMPTY=4 STOP=5 S'=6 E=7.
    tbl_lr / tbl_glr are the tables parglare builds with the defaults of Parser
    (prefer_shifts, lexical disambiguation) and of GLRParser; the harness re-derives
-   both from /repo on every run and compares them with these constants. *)
+   both from /repo on every run_hist and compares them with these constants. *)
 Definition gE : pgram :=
   mkPG [(1, false); (2, false); (3, false); (4, false); (5, false)] [6; 7]
        [(2, false); (3, false); (3, false); (1, false)].
@@ -287,8 +287,8 @@ Definition w_create (_ : N) (lr_defaults : bool) : pres ptable :=
   Ok (if lr_defaults then tbl_lr else tbl_glr).
 Definition w_files : list (path * (N * N)) := [(1, (0, 0))].
 
-Definition w_run := run N bool w_grammar_of w_imported w_pg w_create (mkFS w_files None).
-Definition w_spec := spec_run N bool w_grammar_of w_pg w_create (mkFS w_files None).
+Definition w_run := run_hist N bool w_grammar_of w_imported w_pg w_create (mkFS w_files None).
+Definition w_spec := spec_hist N bool w_grammar_of w_pg w_create (mkFS w_files None).
 
 (* instance 2: the content version of file 1 selects the grammar; version 0 gives
    tbl_glr, any other version tbl_lr (two grammars over the same symbols) *)
@@ -296,8 +296,8 @@ Definition v_grammar_of (vs : list (path * N)) : N :=
   match nassoc 1 vs with Some v => v | None => 0 end.
 Definition v_create (g : N) (_ : bool) : pres ptable :=
   Ok (if g =? 0 then tbl_glr else tbl_lr).
-Definition v_run := run N bool v_grammar_of w_imported w_pg v_create (mkFS w_files None).
-Definition v_spec := spec_run N bool v_grammar_of w_pg v_create (mkFS w_files None).
+Definition v_run := run_hist N bool v_grammar_of w_imported w_pg v_create (mkFS w_files None).
+Definition v_spec := spec_hist N bool v_grammar_of w_pg v_create (mkFS w_files None).
 
 Fixpoint clocked (t : N) {FP} (h : list (N * op FP)) : Prop :=
   match h with
@@ -348,11 +348,11 @@ Lemma options_refuted_full :
          (h1 h2 : list (N * op FP)),
     reads_only_imported G grammar_of imported /\ creates_wf G FP pg_of create_table /\
     clocked 0 h1 /\ clocked 0 h2 /\
-    run G FP grammar_of imported pg_of create_table (mkFS files None) h1
-    <> spec_run G FP grammar_of pg_of create_table (mkFS files None) h1 /\
-    run G FP grammar_of imported pg_of create_table (mkFS files None) h2
+    run_hist G FP grammar_of imported pg_of create_table (mkFS files None) h1
+    <> spec_hist G FP grammar_of pg_of create_table (mkFS files None) h1 /\
+    run_hist G FP grammar_of imported pg_of create_table (mkFS files None) h2
     = [Ok tbl_glr; Raise ESRConflicts] /\
-    spec_run G FP grammar_of pg_of create_table (mkFS files None) h2
+    spec_hist G FP grammar_of pg_of create_table (mkFS files None) h2
     = [Ok tbl_glr; Ok tbl_lr].
 Proof.
   exists N, bool, w_grammar_of, w_imported, w_pg, w_create, w_files, h_lr_glr, h_glr_lr.
